@@ -36,8 +36,10 @@ package state_test
 // peer-imported entries beyond R1/R2/R4 (they take no part in gateway, kind-name, topology or usage logic).
 
 import (
+	"encoding/json"
 	"fmt"
 	"os"
+	"path/filepath"
 	"sort"
 	"strings"
 	"testing"
@@ -950,10 +952,48 @@ func verifC07Witnesses() map[string][]*vs.Op {
 	}
 }
 
+// verifC07WitnessKeys: the finding each witness demonstrates (key of the corpus file written from it).
+var verifC07WitnessKeys = map[string]string{
+	"witness-vip-freed-under-instance-name":                 verifC07KeyVIPFreed,
+	"witness-mesh-topology-refs-lost":                       verifC07KeyRefsLost,
+	"witness-mesh-topology-link-dropped-on-upstream-edit":   verifC07KeyLinkDroppedOnEdit,
+	"witness-gateway-wildcard-row-for-peer-imported-proxy":  verifC07KeyPeerProxyWildcard,
+	"witness-connect-enabled-name-survives-in-place-update": verifC07KeyConnectEnabledStale,
+	"witness-destination-name-survives-defaults-rewrite":    verifC07KeyDestinationStale,
+	"witness-ingress-topology-link-dropped":                 verifC07KeyIngressLinkDropped,
+	"witness-explicit-gateway-link-overwritten-by-wildcard": verifC07KeyExplicitOverwritten,
+	"witness-gateway-vip-tag-survives-entry-deletion":       verifC07KeyGatewayTagStale,
+}
+
 func TestVerifC07Replay(t *testing.T) {
 	rec := verifkit.For("C07")
 	defer rec.Flush()
-	if os.Getenv("VERIF_REPLAY") == "" {
+	if dir := os.Getenv("VERIF_C07_WRITE_CORPUS"); dir != "" {
+		// maintenance aid: write the witnesses as replay files (/verif/corpus/C07/witness-*.json are produced this way)
+		ws := verifC07Witnesses()
+		for _, name := range verifC07SortedKeys(ws) {
+			rp := verifkit.Replay{Property: "C07", Key: verifC07WitnessKeys[name], Detail: "fixed minimal history of a finding on the pinned tree (written from verifC07Witnesses)"}
+			for _, op := range ws[name] {
+				b, err := json.Marshal(op)
+				if err != nil {
+					t.Fatal(err)
+				}
+				rp.Ops = append(rp.Ops, b)
+			}
+			b, _ := json.MarshalIndent(rp, "", " ")
+			if err := os.WriteFile(filepath.Join(dir, name+".json"), b, 0o644); err != nil {
+				t.Fatal(err)
+			}
+		}
+		return
+	}
+	files := verifkit.ReplayFiles("C07")
+	haveCorpusWitnesses := false
+	for _, path := range files {
+		haveCorpusWitnesses = haveCorpusWitnesses || strings.HasPrefix(filepath.Base(path), "witness-")
+	}
+	if os.Getenv("VERIF_REPLAY") == "" && !haveCorpusWitnesses {
+		// no corpus at hand: run the witnesses from their definition
 		ws := verifC07Witnesses()
 		for _, name := range verifC07SortedKeys(ws) {
 			c := rec.NewCase()
@@ -962,9 +1002,13 @@ func TestVerifC07Replay(t *testing.T) {
 			c.Done()
 		}
 	}
-	for _, path := range verifkit.ReplayFiles("C07") {
+	for _, path := range files {
 		c := rec.NewCase()
-		c.Label("replay")
+		if base := filepath.Base(path); strings.HasPrefix(base, "witness-") {
+			c.Label("witness:" + strings.TrimSuffix(base, ".json"))
+		} else {
+			c.Label("replay")
+		}
 		verifC07Run(t, c, verifC07Feeder(verifLoadOps(t, path)))
 		c.Done()
 	}
